@@ -24,7 +24,9 @@ func fqdnShape(s string) bool {
 }
 
 func packName(s string) ([]byte, error) {
-	buf := make([]byte, 600)
+	// a buffer that has been used before: every octet the name occupies has to be written, the final
+	// zero octet included
+	buf := bytes.Repeat([]byte{0x3F}, 600)
 	off, err := dns.PackDomainName(s, buf, 0, nil, false)
 	if err != nil {
 		return nil, err
